@@ -239,62 +239,67 @@ def wosFix (vp : List El) : List El :=
     | _ => vp)
   | none => vp
 
+/-- `Phrase.processInt`, what happens to the elements: `(S.elements, VP.elements, prefix, « par » in front?, what
+    `.a(..)` appends)`; `dflt` is the prefix of the rules -/
+def processIntPhraseCore (int : Str) (dflt : Str) (sel vp : List El) :
+    Except Crash (List El × List El × Str × Bool × Str) :=
+  let hasVP := sel.any El.isVP
+  if intGroupMove.contains int then do
+    let r ← moveObjectPhrase int sel vp
+    pure (r.1, r.2, dflt, false, [])
+  else if intGroupSubj.contains int then
+    -- subjIdx = getIndex([...]) is never None; -1 < vbIdx deletes elements[-1]
+    match firstIdx (fun e => e.isVP || e.isV) sel with
+    | none => pure (sel, vp, dflt, false, [])   -- vbIdx = -1: `subjIdx < vbIdx` is false
+    | some vb =>
+      match firstIdx isSubjEl sel with
+      | some si =>
+        if si < vb then pure (sel.eraseIdx si, wosFix vp, dflt, false, []) else pure (sel, vp, dflt, false, [])
+      | none =>
+        -- subjIdx = -1 < vbIdx: `del self.elements[-1]` removes the LAST element
+        pure (sel.dropLast, wosFix vp, dflt, false, [])
+  else if intGroupObj.contains int then do
+    let vpA : List El × Bool :=
+      if hasVP then
+        let a := match firstIdx El.isNPorPro vp with
+          | some i => vp.eraseIdx i
+          | none => vp
+        match firstIdx El.isPP a with
+        | some j => (match a[j]? with
+          | some (.pp prep _ _) => if prep = par then (a.eraseIdx j, true) else (a, false)
+          | _ => (a, false))
+        | none => (a, false)
+      else (vp, false)
+    let r ← moveObjectPhrase int sel vpA.1
+    pure (r.1, r.2, dflt, vpA.2, [])
+  else if intGroupInd.contains int then do
+    let vpA : List El × Str :=
+      if hasVP then
+        match firstIdx El.isPP vp with
+        | some j => (match vp[j]? with
+          | some (.pp prep _ _) =>
+            if int = wheStr then (if prepsWhe.contains prep then vp.eraseIdx j else vp, dflt)
+            else if int = whnStr then (if prepsWhn.contains prep then vp.eraseIdx j else vp, dflt)
+            else if prepsAll.contains prep then
+              (vp.eraseIdx j, prep ++ [' '] ++ (if int = woiStr then qui else quoi))
+            else (vp, dflt)
+          | _ => (vp, dflt))
+        | none => (vp, dflt)
+      else (vp, dflt)
+    let r ← moveObjectPhrase int sel vpA.1
+    pure (r.1, r.2, vpA.2, false, [])
+  else if int = tagStr then pure (sel, vp, dflt, false, tagText)
+  else pure (sel, vp, dflt, false, [])
+
 /-- `Phrase.processInt`; returns `(S.elements, VP.elements, what `.a(..)` appends)` -/
 def processIntPhrase (int : Str) (sel vp : List El) : Except Crash (List El × List El × Str) := do
   let dflt ← prefixOf int
-  let hasVP := sel.any El.isVP
-  let (sel1, vp1, pfx, ppar, endS) : List El × List El × Str × Bool × Str ←
-    if intGroupMove.contains int then do
-      let r ← moveObjectPhrase int sel vp
-      pure (r.1, r.2, dflt, false, [])
-    else if intGroupSubj.contains int then
-      -- subjIdx = getIndex([...]) is never None; -1 < vbIdx deletes elements[-1]
-      match firstIdx (fun e => e.isVP || e.isV) sel with
-      | none => pure (sel, vp, dflt, false, [])   -- vbIdx = -1: `subjIdx < vbIdx` is false
-      | some vb =>
-        match firstIdx isSubjEl sel with
-        | some si =>
-          if si < vb then pure (sel.eraseIdx si, wosFix vp, dflt, false, []) else pure (sel, vp, dflt, false, [])
-        | none =>
-          -- subjIdx = -1 < vbIdx: `del self.elements[-1]` removes the LAST element
-          pure (sel.dropLast, wosFix vp, dflt, false, [])
-    else if intGroupObj.contains int then do
-      let (vpA, ppar) : List El × Bool :=
-        if hasVP then
-          let a := match firstIdx El.isNPorPro vp with
-            | some i => vp.eraseIdx i
-            | none => vp
-          match firstIdx El.isPP a with
-          | some j => (match a[j]? with
-            | some (.pp prep _ _) => if prep = par then (a.eraseIdx j, true) else (a, false)
-            | _ => (a, false))
-          | none => (a, false)
-        else (vp, false)
-      let r ← moveObjectPhrase int sel vpA
-      pure (r.1, r.2, dflt, ppar, [])
-    else if intGroupInd.contains int then do
-      let (vpA, pfx) : List El × Str :=
-        if hasVP then
-          match firstIdx El.isPP vp with
-          | some j => (match vp[j]? with
-            | some (.pp prep _ _) =>
-              if int = wheStr then (if prepsWhe.contains prep then vp.eraseIdx j else vp, dflt)
-              else if int = whnStr then (if prepsWhn.contains prep then vp.eraseIdx j else vp, dflt)
-              else if prepsAll.contains prep then
-                (vp.eraseIdx j, prep ++ [' '] ++ (if int = woiStr then qui else quoi))
-              else (vp, dflt)
-            | _ => (vp, dflt))
-          | none => (vp, dflt)
-        else (vp, dflt)
-      let r ← moveObjectPhrase int sel vpA
-      pure (r.1, r.2, pfx, false, [])
-    else if int = tagStr then pure (sel, vp, dflt, false, tagText)
-    else pure (sel, vp, dflt, false, [])
-  let sel2 := El.q pfx :: sel1
-  let sel3 := if ppar then
+  let r ← processIntPhraseCore int dflt sel vp
+  let sel2 := El.q r.2.2.1 :: r.1
+  let sel3 := if r.2.2.2.1 then
       (El.pt par) :: (if int = wadStr then (match sel2 with | .q _ :: r => El.q quoi :: r | l => l) else sel2)
     else sel2
-  pure (sel3, vp1, endS ++ intPunct)
+  pure (sel3, r.2.1, r.2.2.2.2 ++ intPunct)
 
 /-- `PhraseFr.pronominalize` for the flagged children of the VP, in order (`pronominalizeChildren`) -/
 def pronominalizeVP (vp : List El) : List El :=
